@@ -300,6 +300,15 @@ def run_replay_file(mod, path, known):
     return "ok", "", None
 
 
+def _replay_entry(args):
+    modname, path, known = args
+    mod = importlib.import_module(modname)
+    try:
+        return run_replay_file(mod, path, known)
+    except BaseException:  # noqa: BLE001
+        return "error", traceback.format_exc(), None
+
+
 def trunc(spec, limit=1500):
     s = canon_json(spec)
     if len(s) <= limit:
@@ -359,11 +368,15 @@ def main(argv=None):
     rdir = os.path.join(HERE, "replays", prop)
     replayed = 0
     if os.path.isdir(rdir) and only is None:
-        for fn in sorted(os.listdir(rdir)):
-            if not fn.endswith(".json"):
-                continue
-            p = os.path.join(rdir, fn)
-            st, detail, k = run_replay_file(mod, p, known)
+        files = [os.path.join(rdir, fn) for fn in sorted(os.listdir(rdir)) if fn.endswith(".json")]
+        # Replays run in a forked child: the parent must stay free of threads
+        # (e.g. dask's default thread pool) until the worker pool has forked.
+        outs = []
+        if files:
+            with mp.get_context("fork").Pool(1) as rp:
+                outs = rp.map(_replay_entry, [(modname, f, known) for f in files], chunksize=1)
+        for p, (st, detail, k) in zip(files, outs):
+            fn = os.path.basename(p)
             replayed += 1
             if st == "violation":
                 with open(p) as f:
@@ -470,7 +483,7 @@ def main(argv=None):
         "wall_s": round(wall, 2),
         "violations": len(violations),
     }
-    if only is None:
+    if only is None and not os.environ.get("VERIF_NO_EVIDENCE"):
         os.makedirs(os.path.join(HERE, "evidence"), exist_ok=True)
         with open(os.path.join(HERE, "evidence", f"{prop}.json"), "w") as f:
             json.dump(ev, f, indent=1, sort_keys=True, default=repr)
